@@ -1,18 +1,420 @@
-use swc_core::common::{sync::Lrc, FileName, SourceMap, Mark, GLOBALS, Globals, comments::SingleThreadedComments};
-use swc_core::ecma::parser::{parse_file_as_module, Syntax, EsSyntax, TsSyntax};
-use swc_core::ecma::transforms::base::resolver;
+// Harness: runs the real visitor (built from /repo's working tree, hooks on) on cases and
+// writes, per case, everything the Coq model needs, in a trivial line-token format.
+mod oj;
+use oj::J;
+use std::io::{BufRead, Write};
+use std::panic::{catch_unwind, AssertUnwindSafe};
+use std::sync::{Arc, Mutex};
+use swc_core::common::{
+    comments::{Comments, SingleThreadedComments},
+    errors::{DiagnosticBuilder, Emitter, Handler},
+    sync::Lrc,
+    FileName, Globals, Mark, SourceMap, Spanned, SyntaxContext, GLOBALS,
+};
 use swc_core::ecma::ast::*;
+use swc_core::ecma::codegen::to_code_default;
+use swc_core::ecma::parser::{parse_file_as_module, EsSyntax, Syntax, TsSyntax};
+use swc_core::ecma::transforms::base::{fixer::fixer, hygiene::hygiene, resolver};
 use swc_core::ecma::visit::VisitMutWith;
-fn main() {
-    let src = std::env::args().nth(1).unwrap();
+use swc_core::plugin::errors::HANDLER;
+use swc_vue_jsx_visitor::{Options, VueJsxTransformVisitor};
+
+struct Collect(Arc<Mutex<Vec<String>>>);
+impl Emitter for Collect {
+    fn emit(&mut self, db: &DiagnosticBuilder<'_>) {
+        self.0.lock().unwrap().push(db.message());
+    }
+}
+
+fn is_span(m: &[(String, J)]) -> bool {
+    m.len() == 2 && m[0].0 == "start" && m[1].0 == "end" && m[0].1.as_u64().is_some() && m[1].1.as_u64().is_some()
+}
+
+// strip spans; CallExpression gets "syn" (span is DUMMY_SP)
+fn strip(v: &J) -> J {
+    match v {
+        J::Obj(m) => {
+            if is_span(m) {
+                return J::Bool(true);
+            }
+            let mut out = vec![];
+            let ty = v.get("type").and_then(|t| t.as_str()).unwrap_or("");
+            for (k, val) in m {
+                if k == "span" {
+                    if ty == "CallExpression" {
+                        let dummy = val.get("start").and_then(|x| x.as_u64()) == Some(0)
+                            && val.get("end").and_then(|x| x.as_u64()) == Some(0);
+                        out.push(("syn".to_string(), J::Bool(dummy)));
+                    }
+                    continue;
+                }
+                out.push((k.clone(), strip(val)));
+            }
+            J::Obj(out)
+        }
+        J::Arr(a) => J::Arr(a.iter().map(strip).collect()),
+        _ => v.clone(),
+    }
+}
+
+fn collect_ctxts(v: &J, set: &mut std::collections::BTreeSet<u64>) {
+    match v {
+        J::Obj(m) => {
+            for (k, val) in m {
+                if k == "ctxt" {
+                    if let Some(n) = val.as_u64() {
+                        set.insert(n);
+                    }
+                } else {
+                    collect_ctxts(val, set);
+                }
+            }
+        }
+        J::Arr(a) => a.iter().for_each(|x| collect_ctxts(x, set)),
+        _ => {}
+    }
+}
+
+const GEN_BASE: u64 = 1_000_000;
+
+// rename contexts not present in the input by first occurrence (document order)
+fn canon(v: &mut J, known: &std::collections::BTreeSet<u64>, map: &mut Vec<u64>) {
+    match v {
+        J::Obj(m) => {
+            for (k, val) in m.iter_mut() {
+                if k == "ctxt" {
+                    if let Some(n) = val.as_u64() {
+                        if !known.contains(&n) {
+                            let idx = match map.iter().position(|x| *x == n) {
+                                Some(i) => i,
+                                None => {
+                                    map.push(n);
+                                    map.len() - 1
+                                }
+                            };
+                            *val = J::n(GEN_BASE + idx as u64);
+                        }
+                    }
+                } else {
+                    canon(val, known, map);
+                }
+            }
+        }
+        J::Arr(a) => a.iter_mut().for_each(|x| canon(x, known, map)),
+        _ => {}
+    }
+}
+
+fn tag_names(v: &J, out: &mut Vec<String>) {
+    match v {
+        J::Obj(m) => {
+            if v.get("type").and_then(|t| t.as_str()) == Some("JSXOpeningElement") {
+                if let Some(name) = v.get("name") {
+                    let n = match name.get("type").and_then(|t| t.as_str()) {
+                        Some("Identifier") => name.get("value"),
+                        Some("JSXMemberExpression") => name.get("property").and_then(|p| p.get("value")),
+                        Some("JSXNamespacedName") => name.get("name").and_then(|p| p.get("value")),
+                        _ => None,
+                    };
+                    if let Some(J::Str(s)) = n {
+                        if !out.contains(s) {
+                            out.push(s.clone());
+                        }
+                    }
+                }
+            }
+            m.iter().for_each(|(_, x)| tag_names(x, out));
+        }
+        J::Arr(a) => a.iter().for_each(|x| tag_names(x, out)),
+        _ => {}
+    }
+}
+
+fn to_j<T: serde::Serialize>(x: &T) -> J {
+    oj::parse(&serde_json::to_string(x).unwrap())
+}
+
+// ---- line-token emitter -------------------------------------------------------------
+fn emit_str(s: &str, out: &mut String) {
+    out.push('"');
+    let mut first = true;
+    for c in s.chars() {
+        if !first {
+            out.push(',');
+        }
+        first = false;
+        out.push_str(&(c as u32).to_string());
+    }
+    out.push('\n');
+}
+fn emit(v: &J, out: &mut String) {
+    match v {
+        J::Null => out.push_str("N\n"),
+        J::Bool(true) => out.push_str("T\n"),
+        J::Bool(false) => out.push_str("F\n"),
+        J::Num(n) => {
+            out.push('#');
+            out.push_str(n);
+            out.push('\n');
+        }
+        J::Str(s) => emit_str(s, out),
+        J::Arr(a) => {
+            out.push_str(&format!("[{}\n", a.len()));
+            a.iter().for_each(|x| emit(x, out));
+        }
+        J::Obj(m) => {
+            out.push_str(&format!("{{{}\n", m.len()));
+            for (k, x) in m {
+                emit_str(k, out);
+                emit(x, out);
+            }
+        }
+    }
+}
+
+fn syntax_of(s: &str, jsx: bool) -> Syntax {
+    if s == "tsx" {
+        Syntax::Typescript(TsSyntax { tsx: jsx, ..Default::default() })
+    } else {
+        Syntax::Es(EsSyntax { jsx, ..Default::default() })
+    }
+}
+
+fn run_case(case: &J) -> J {
+    let src = case.get("src").and_then(|x| x.as_str()).unwrap_or("").to_string();
+    let syn = case.get("syntax").and_then(|x| x.as_str()).unwrap_or("jsx").to_string();
+    let opts_text = case.get("options").and_then(|x| x.as_str()).unwrap_or("{}").to_string();
+    let mut rec: Vec<(String, J)> = vec![];
+    rec.push(("id".into(), case.get("id").cloned().unwrap_or(J::Null)));
+    rec.push(("syntax".into(), J::s(&syn)));
+    rec.push(("options_text".into(), J::s(&opts_text)));
+
+    // options exactly as plugin/src/lib.rs reads them
+    let opts: Result<Options, _> = serde_json::from_str(&opts_text);
+    let opts = match opts {
+        Ok(o) => o,
+        Err(e) => {
+            rec.push(("status".into(), J::s("bad-options")));
+            rec.push(("options_error".into(), J::s(&e.to_string())));
+            return J::Obj(rec);
+        }
+    };
+    rec.push((
+        "options".into(),
+        J::Obj(vec![
+            ("transformOn".into(), J::Bool(opts.transform_on)),
+            ("optimize".into(), J::Bool(opts.optimize)),
+            ("mergeProps".into(), J::Bool(opts.merge_props)),
+            ("enableObjectSlots".into(), J::Bool(opts.enable_object_slots)),
+            ("pragma".into(), opts.pragma.as_ref().map(|p| J::s(p)).unwrap_or(J::Null)),
+            ("resolveType".into(), J::Bool(opts.resolve_type)),
+            ("patterns".into(), J::Arr(opts.custom_element_patterns.iter().map(|r| J::s(r.as_str())).collect())),
+        ]),
+    ));
+
     let cm: Lrc<SourceMap> = Default::default();
     GLOBALS.set(&Globals::new(), || {
-        let fm = cm.new_source_file(FileName::Anon.into(), src);
+        let fm = cm.new_source_file(FileName::Anon.into(), src.clone());
         let comments = SingleThreadedComments::default();
         let mut errs = vec![];
-        let mut m = parse_file_as_module(&fm, Syntax::Typescript(TsSyntax{tsx:true, ..Default::default()}), EsVersion::latest(), Some(&comments), &mut errs).unwrap();
-        let um = Mark::new(); let tm = Mark::new();
-        m.visit_mut_with(&mut resolver(um, tm, true));
-        println!("{}", serde_json::to_string(&m).unwrap());
+        let parsed = parse_file_as_module(&fm, syntax_of(&syn, true), EsVersion::latest(), Some(&comments), &mut errs);
+        let mut module = match parsed {
+            Ok(m) if errs.is_empty() => m,
+            _ => {
+                rec.push(("status".into(), J::s("parse-error")));
+                return;
+            }
+        };
+        let unresolved_mark = Mark::new();
+        let top_mark = Mark::new();
+        module.visit_mut_with(&mut resolver(unresolved_mark, top_mark, syn == "tsx"));
+        let unres_ctxt = SyntaxContext::empty().apply_mark(unresolved_mark).as_u32();
+        rec.push(("unres".into(), J::n(unres_ctxt as u64)));
+
+        let input_json = strip(&to_j(&module));
+        let mut known = std::collections::BTreeSet::new();
+        collect_ctxts(&input_json, &mut known);
+        known.insert(0);
+        known.insert(unres_ctxt as u64);
+
+        // leading comments: module span, then every top-level item
+        let mut cmts: Vec<J> = vec![];
+        let mut positions = vec![module.span.lo];
+        positions.extend(module.body.iter().map(|i| i.span().lo));
+        for p in positions {
+            let texts = comments.with_leading(p, |cs| cs.iter().map(|c| c.text.to_string()).collect::<Vec<_>>());
+            cmts.push(J::strs(&texts));
+        }
+        rec.push(("comments".into(), J::Arr(cmts)));
+
+        // regex table
+        let mut names = vec![];
+        tag_names(&input_json, &mut names);
+        let table: Vec<J> = names
+            .iter()
+            .map(|n| J::Arr(vec![J::s(n), J::Arr(opts.custom_element_patterns.iter().map(|r| J::Bool(r.is_match(n))).collect())]))
+            .collect();
+        rec.push(("matches".into(), J::Arr(table)));
+        rec.push(("input".into(), input_json));
+
+        let run = |m: &Module| -> (Result<Module, String>, Vec<String>) {
+            let diags = Arc::new(Mutex::new(vec![]));
+            let handler = Handler::with_emitter(true, false, Box::new(Collect(diags.clone())));
+            let mut m2 = m.clone();
+            let r = catch_unwind(AssertUnwindSafe(|| {
+                HANDLER.set(&handler, || {
+                    let mut v = VueJsxTransformVisitor::new(opts.clone(), unresolved_mark, Some(comments.clone()));
+                    m2.visit_mut_with(&mut v);
+                });
+                m2
+            }));
+            let d = diags.lock().unwrap().clone();
+            match r {
+                Ok(m) => (Ok(m), d),
+                Err(e) => {
+                    let msg = e.downcast_ref::<String>().cloned().or_else(|| e.downcast_ref::<&str>().map(|s| s.to_string())).unwrap_or_default();
+                    (Err(msg), d)
+                }
+            }
+        };
+        let canon_of = |m: &Module| -> J {
+            let mut j = strip(&to_j(m));
+            let mut map = vec![];
+            canon(&mut j, &known, &mut map);
+            j
+        };
+
+        let (out1, diags1) = run(&module);
+        rec.push(("diags".into(), J::strs(&diags1)));
+        let out1 = match out1 {
+            Ok(m) => m,
+            Err(msg) => {
+                rec.push(("status".into(), J::s("panic")));
+                rec.push(("panic".into(), J::s(&msg)));
+                return;
+            }
+        };
+        rec.push(("status".into(), J::s("ok")));
+        let out_json = canon_of(&out1);
+        rec.push(("output".into(), out_json.clone()));
+
+        // determinism: a second in-process run
+        let (out1b, diags1b) = run(&module);
+        let same = match out1b {
+            Ok(m) => canon_of(&m) == out_json && diags1b == diags1,
+            Err(_) => false,
+        };
+        rec.push(("rerun_same".into(), J::Bool(same)));
+
+        // idempotence: the visitor on its own raw output
+        let (out2, diags2) = run(&out1);
+        match out2 {
+            Ok(m) => {
+                rec.push(("output2".into(), canon_of(&m)));
+                rec.push(("diags2".into(), J::strs(&diags2)));
+            }
+            Err(msg) => {
+                rec.push(("output2".into(), J::Null));
+                rec.push(("panic2".into(), J::s(&msg)));
+            }
+        }
+
+        // print (hygiene + fixer + codegen) and re-parse with JSX off
+        let mut printed_m = out1.clone();
+        let pr = catch_unwind(AssertUnwindSafe(|| {
+            printed_m.visit_mut_with(&mut hygiene());
+            printed_m.visit_mut_with(&mut fixer(Some(&comments)));
+            to_code_default(cm.clone(), Some(&comments), &printed_m)
+        }));
+        match pr {
+            Ok(code) => {
+                let fm2 = cm.new_source_file(FileName::Anon.into(), code.clone());
+                let mut errs2 = vec![];
+                let re = parse_file_as_module(&fm2, syntax_of(&syn, false), EsVersion::latest(), None, &mut errs2);
+                rec.push(("reparse_ok".into(), J::Bool(re.is_ok() && errs2.is_empty())));
+                rec.push(("printed".into(), J::s(&code)));
+            }
+            Err(_) => {
+                rec.push(("reparse_ok".into(), J::Bool(false)));
+                rec.push(("printed".into(), J::Null));
+            }
+        }
     });
+    J::Obj(rec)
+}
+
+fn main() {
+    let args: Vec<String> = std::env::args().collect();
+    std::panic::set_hook(Box::new(|_| {}));
+    match args.get(1).map(|s| s.as_str()) {
+        // run <cases.jsonl> <out.tok> <out.jsonl> [progress-file]
+        Some("run") => {
+            let f = std::fs::File::open(&args[2]).unwrap();
+            let mut tok = std::io::BufWriter::new(std::fs::File::create(&args[3]).unwrap());
+            let mut js = std::io::BufWriter::new(std::fs::File::create(&args[4]).unwrap());
+            for line in std::io::BufReader::new(f).lines() {
+                let line = line.unwrap();
+                if line.trim().is_empty() {
+                    continue;
+                }
+                let case = oj::parse(&line);
+                if let Some(p) = args.get(5) {
+                    let mut t = String::new();
+                    case.get("id").unwrap_or(&J::Null).to_json(&mut t);
+                    std::fs::write(p, t).ok();
+                }
+                let rec = run_case(&case);
+                let mut s = String::new();
+                emit(&rec, &mut s);
+                tok.write_all(s.as_bytes()).unwrap();
+                // the side file for the orchestrator: everything except the big trees
+                if let J::Obj(m) = rec {
+                    let small: Vec<(String, J)> = m.into_iter().filter(|(k, _)| k != "input" && k != "output" && k != "output2").collect();
+                    let mut t = String::new();
+                    J::Obj(small).to_json(&mut t);
+                    writeln!(js, "{}", t).unwrap();
+                }
+            }
+        }
+        // text <strings.txt> : one string per line as comma separated code points
+        Some("text") => {
+            let f = std::fs::File::open(&args[2]).unwrap();
+            let out = std::io::stdout();
+            let mut out = std::io::BufWriter::new(out.lock());
+            for line in std::io::BufReader::new(f).lines() {
+                let line = line.unwrap();
+                let s: String = line.split(',').filter(|x| !x.is_empty()).map(|x| char::from_u32(x.parse().unwrap()).unwrap()).collect();
+                let r = swc_vue_jsx_visitor::verif_hooks::transform_text(&s);
+                let cps: Vec<String> = r.chars().map(|c| (c as u32).to_string()).collect();
+                writeln!(out, "{}", cps.join(",")).unwrap();
+            }
+        }
+        Some("tables") => {
+            let mut html: Vec<&str> = css_dataset::tags::STANDARD_HTML_TAGS.iter().copied().collect();
+            html.sort();
+            let mut svg: Vec<&str> = css_dataset::tags::SVG_TAGS.iter().copied().collect();
+            svg.sort();
+            let v = serde_json::json!({
+                "html": html, "svg": svg,
+                "patch_flags": swc_vue_jsx_visitor::verif_hooks::patch_flags(),
+                "slot_flags": swc_vue_jsx_visitor::verif_hooks::slot_flags(),
+            });
+            println!("{}", v);
+        }
+        // json <file.jsx|tsx> <options-json>: input/output JSON for inspection
+        Some("json") => {
+            let src = std::fs::read_to_string(&args[2]).unwrap();
+            let syn = if args[2].ends_with(".tsx") { "tsx" } else { "jsx" };
+            let rec = run_case(&J::Obj(vec![
+                ("id".into(), J::n(0)),
+                ("src".into(), J::Str(src)),
+                ("syntax".into(), J::s(syn)),
+                ("options".into(), J::Str(args.get(3).cloned().unwrap_or("{}".into()))),
+            ]));
+            let mut t = String::new();
+            rec.to_json(&mut t);
+            println!("{}", t);
+        }
+        _ => eprintln!("usage: run|text|tables|json"),
+    }
 }
